@@ -117,6 +117,9 @@ pub struct Shared {
     pub fallible_calls: usize,
     /// answer of the user-validation step for the current ceremony
     pub uv_answer: Result<(bool, bool), u8>,
+    /// what the environment reports NOW, when it changed after the authenticator was built (an enrolment into user
+    /// verification, a store that changes its discoverability support): (uvCap, upCap, disc)
+    pub env_now: Option<(Option<bool>, bool, &'static str)>,
     pub yields: bool,
     /// concurrent mode: the ceremony being polled; events are tagged with it
     pub current: Option<usize>,
@@ -167,6 +170,7 @@ pub fn new_shared() -> Sh {
         faults: vec![],
         fallible_calls: 0,
         uv_answer: Ok((true, true)),
+        env_now: None,
         yields: true,
         current: None,
         no_before_gate: false,
@@ -375,6 +379,8 @@ pub struct RefStore {
     pub v: Vec<Passkey>,
     pub disc: &'static str,
     pub empty_as_err: bool,
+    /// the run's shared state: a later change of the environment overrides `disc`
+    pub sh: Option<Sh>,
 }
 
 #[async_trait]
@@ -415,7 +421,8 @@ impl CredentialStore for RefStore {
     }
 
     async fn get_info(&self) -> StoreInfo {
-        StoreInfo { discoverability: disc_of(self.disc) }
+        let now = self.sh.as_ref().and_then(|sh| sh.lock().unwrap().env_now.map(|e| e.2));
+        StoreInfo { discoverability: disc_of(now.unwrap_or(self.disc)) }
     }
 }
 
@@ -650,11 +657,11 @@ impl UserValidationMethod for TUv {
     }
 
     fn is_presence_enabled(&self) -> bool {
-        self.up_cap
+        self.sh.lock().unwrap().env_now.map(|e| e.1).unwrap_or(self.up_cap)
     }
 
     fn is_verification_enabled(&self) -> Option<bool> {
-        self.uv_cap
+        self.sh.lock().unwrap().env_now.map(|e| e.0).unwrap_or(self.uv_cap)
     }
 }
 
@@ -682,7 +689,7 @@ pub fn new_store_wrapped(kind: &str, wrap: &str, disc: &str, empty_as_err: bool,
         "memory" => Inner::Memory(creds.into_iter().map(|p| (p.credential_id.clone().into(), p)).collect::<HashMap<Vec<u8>, Passkey>>()),
         "slot" => Inner::Slot(creds.into_iter().next()),
         _ => {
-            let r = RefStore { v: creds, disc, empty_as_err };
+            let r = RefStore { v: creds, disc, empty_as_err, sh: Some(sh.clone()) };
             match wrap {
                 "mutex" => Inner::MutexRef(tokio::sync::Mutex::new(r)),
                 "rwlock" => Inner::RwRef(tokio::sync::RwLock::new(r)),
